@@ -3,7 +3,10 @@ import gen as G
 
 G.GROUPS['RsConsts'] = dict(
     pre='#include <stddef.h>\n#include <os_type.h>\n#include <osapi.h>\n#include <supla_esp.h>\n#include <supla_esp_cfg.h>\n'
-        '#include <supla_esp_gpio.h>\n#include <supla_esp_rs_fb.h>\n#include <proto.h>\n',
+        '#include <supla_esp_gpio.h>\n#include <supla_esp_rs_fb.h>\n#include <proto.h>\n'
+        # the two getters are probed as functions of the stored word (behavioural: the bounds of both comparisons are recovered from the
+        # compiled source, so a dropped or moved comparison changes the generated constants and breaks consts_ok of C09/Proofs.v)
+        '#include "supla_esp_rs_fb.c"\n',
     ints=[
         ('RS_MAX_COUNT_', 'RS_MAX_COUNT'),
         ('RELAY_OFF', 'RS_RELAY_OFF'),
@@ -35,4 +38,31 @@ G.GROUPS['RsConsts'] = dict(
         ('SIZEOF_POSITION', 'sizeof(*((supla_roller_shutter_cfg_t*)0)->position)'),
         ('SIZEOF_MARGIN', 'sizeof(((supla_roller_shutter_cfg_t*)0)->rs_time_margin)'),
     ],
+    body='''
+  { static int P, T; static unsigned int tct = 1000; static unsigned char tty = 1; static supla_roller_shutter_cfg_t rc;
+    rc.position = &P; rc.tilt = &T; rc.tilt_change_time = &tct; rc.tilt_type = &tty;
+    /* words probed: every value -300..30300 and a set of large / negative 32-bit words */
+    static const int big[] = {-2147483647-1, -2147483647, -65536, -10101, -10100, -101, -100, 0x7FFFFFFF, 0x7FFFFFFE, 0xFFFFFF, 0xFF0000, 0xFF00, 65535, 65536, 1000000};
+    long long plo = 1LL<<40, phi = -(1LL<<40), tlo = 1LL<<40, thi = -(1LL<<40), pbad = 0, tbad = 0, prnd = 0, trnd = 0, tbelow = 0;
+    for (long long w = -300; w <= 30300; w++) {
+      P = (int)w; T = (int)w;
+      int rp = supla_esp_gpio_rs_get_current_position(&rc), rt = supla_esp_gpio_rs_get_current_tilt(&rc);
+      if (rp != -1) { if (w < plo) plo = w; if (w > phi) phi = w; if (rp != (w - 100 + 50) / 100) prnd++; }
+      if (rt != 0 && w < 100) tbelow++;
+      if (rt != 0)  { if (w < tlo) tlo = w; if (w > thi) thi = w; if (rt != (w - 100 + 50) / 100) trnd++; }
+    }
+    for (unsigned i = 0; i < sizeof(big)/sizeof(big[0]); i++) {
+      P = big[i]; T = big[i];
+      if (supla_esp_gpio_rs_get_current_position(&rc) != -1) pbad++;
+      if (supla_esp_gpio_rs_get_current_tilt(&rc) != 0) tbad++;
+    }
+    /* a position / tilt word w is "known" iff LO <= w <= HI; inside, the reported value is (w - 100 + 50) / 100; outside -1 (tilt: 0, so the lower tilt bound shows as: nothing non-zero below 100, first non-zero at LO + 50) */
+    fprintf(stdout, "I GETTER_POS_LO %lld\\nI GETTER_POS_HI %lld\\nI GETTER_TILT_FIRST_NONZERO %lld\\nI GETTER_TILT_HI %lld\\n", plo, phi, tlo + 0, thi);
+    fprintf(stdout, "I GETTER_POS_OUTSIDE_KNOWN %lld\\nI GETTER_TILT_OUTSIDE_KNOWN %lld\\nI GETTER_POS_ROUNDING_DIFFERS %lld\\nI GETTER_TILT_ROUNDING_DIFFERS %lld\\n", pbad, tbad, prnd, trnd);
+    fprintf(stdout, "I GETTER_TILT_BELOW_NONZERO %lld\\n", tbelow);
+    tty = 0; T = 5100; fprintf(stdout, "I GETTER_TILT_UNSUPPORTED %d\\n", (int)supla_esp_gpio_rs_get_current_tilt(&rc));
+  }
+''',
+    extra_names=['GETTER_POS_LO', 'GETTER_POS_HI', 'GETTER_TILT_FIRST_NONZERO', 'GETTER_TILT_HI', 'GETTER_TILT_BELOW_NONZERO', 'GETTER_POS_OUTSIDE_KNOWN', 'GETTER_TILT_OUTSIDE_KNOWN',
+                 'GETTER_POS_ROUNDING_DIFFERS', 'GETTER_TILT_ROUNDING_DIFFERS', 'GETTER_TILT_UNSUPPORTED'],
 )
